@@ -146,7 +146,7 @@ type GlobalFact struct {
 
 var clauseKeywords = map[string]bool{"func": true, "spec": true, "axiom": true, "requires": true, "ensures": true,
 	"assigns": true, "effects": true, "nilable": true, "loop": true, "pure": true, "trusted": true, "iface": true,
-	"import": true, "inline": true, "global": true, "props": true, "split": true, "reveal": true, "use": true, "typeinv": true, "behaves": true, "behaviour": true, "check": true, "captured": true, "atcall": true, "iterates": true, "iter": true, "assume-after": true, "assume-before": true}
+	"import": true, "inline": true, "global": true, "props": true, "split": true, "reveal": true, "use": true, "typeinv": true, "behaves": true, "behaviour": true, "check": true, "captured": true, "fileprops": true, "atcall": true, "iterates": true, "iter": true, "assume-after": true, "assume-before": true}
 
 func firstWord(s string) string {
 	s = strings.TrimSpace(s)
@@ -209,6 +209,7 @@ var reTags = regexp.MustCompile(`^\{([A-Za-z0-9_, ]+)\}\s*`)
 
 func (P *Program) parseClauses(lines []cline, sc *Scope, pkgPath string, lib bool) error {
 	var cur *FuncContract
+	var fileProps []string
 	errf := func(l cline, format string, a ...any) error {
 		return fmt.Errorf("%s:%d: %s", l.file, l.line, fmt.Sprintf(format, a...))
 	}
@@ -360,6 +361,12 @@ func (P *Program) parseClauses(lines []cline, sc *Scope, pkgPath string, lib boo
 			}
 			P.Contracts[fc.Key] = fc
 			cur = fc
+			cur.Props = append(cur.Props, fileProps...)
+		case "fileprops":
+			// fileprops Cxx, ...: every function declared below in this file belongs to these properties
+			// (its untagged obligations - frames, effects, call preconditions, safety, untagged invariants -
+			// and the clauses tagged with them count for those properties)
+			fileProps = append(fileProps, splitNames(rest)...)
 		case "requires", "ensures", "check", "captured":
 			if cur == nil {
 				return errf(l, "%s outside func", w)
